@@ -91,7 +91,8 @@ HeadSum(sr, G, X) == SumSeq(sr, [r \in DOMAIN G.rules |->
                         IF G.rules[r].h = X THEN G.rules[r].w ELSE Zero(sr)])
 NormalizeOK(e) ==
   LET Z == TreeSum(e.sr, e.in)
-  IN /\ \A X \in Heads(e.out) : HeadSum(e.sr, e.out, X) = One(e.sr)
+  IN Z[e.in.S] # Zero(e.sr) =>       \* the property is about grammars with positive total weight
+     /\ \A X \in Heads(e.out) : HeadSum(e.sr, e.out, X) = One(e.sr)
      /\ TreeSum(e.sr, e.out)[e.out.S] = One(e.sr)
      /\ \A s \in Strs(SetOf(e.sigma), e.L) :
            Mul(e.sr, Weight(e.sr, e.out, s), Z[e.in.S]) = Weight(e.sr, e.in, s)
@@ -122,9 +123,19 @@ LmCallOK(e) ==
   LET Z == TreeSum(e.sr, e.G)[e.G.S]
   IN Mul(e.sr, e.res, Z) = Weight(e.sr, e.G, e.s)
 
+(* expected_length: total weight-weighted string length = second component of the total weight of  *)
+(* the grammar lifted to the expectation semiring (rule weight <w, w * number of terminals in body>) *)
+LiftExpect(G) ==
+  [S |-> G.S, V |-> G.V,
+   rules |-> [r \in DOMAIN G.rules |->
+      LET b == G.rules[r].b
+          nt == Cardinality({j \in DOMAIN b : b[j] \in TermSet(G)})
+      IN [w |-> <<G.rules[r].w, RMul(G.rules[r].w, <<nt, 1>>)>>, h |-> G.rules[r].h, b |-> b]]]
+ExpLenOK(e) == TreeSum("Expect", LiftExpect(e.G))[e.G.S][2] = e.res
+
 InDomain(e) ==
   CASE e.op \in {"parse"} -> InsideExact(e.sr, e.G)
-    [] e.op \in {"prefix", "treesum", "pnext", "ntw", "lmcall"} ->
+    [] e.op \in {"prefix", "treesum", "pnext", "ntw", "lmcall", "explen"} ->
           InsideExact(e.sr, e.G) /\ TreeSumExact(e.sr, e.G)
     [] e.op \in {"transform", "derivative", "addeos"} ->
           InsideExact(e.sr, e.in) /\ InsideExact(e.sr, e.out)
@@ -154,6 +165,7 @@ Failed(e) ==
                          \cup (IF PNextSumOK(e) THEN {} ELSE {"sumsto1"})
     [] e.op = "ntw" -> IF NtwOK(e) THEN {} ELSE {"nexttoken"}
     [] e.op = "lmcall" -> IF LmCallOK(e) THEN {} ELSE {"chainrule"}
+    [] e.op = "explen" -> IF ExpLenOK(e) THEN {} ELSE {"explen"}
 
 VARIABLES sh, l
 vars == <<sh, l>>
